@@ -495,9 +495,15 @@ fn stress(ctx: &Ctx) -> SubReport {
             s.spawn(move || {
                 let res = crate::engine::catch(|| {
                     for i in 0..churn_iters {
-                        let a = SharedString::new(content.clone());
+                        // buffers with spare capacity as well as exact ones (String-built data usually has some)
+                        let with_slack = |i: usize| {
+                            let mut v = Vec::with_capacity(content.len() + 1 + i % 61);
+                            v.extend_from_slice(content);
+                            v
+                        };
+                        let a = SharedString::new(if i % 2 == 0 { content.clone() } else { with_slack(i) });
                         if checker {
-                            let b = SharedString::new(content.clone());
+                            let b = SharedString::new(if i % 3 == 0 { content.clone() } else { with_slack(i / 3) });
                             if a.data().as_ptr() != b.data().as_ptr() {
                                 return Err(format!("round {i}: two live handles of one content do not share a buffer"));
                             }
@@ -628,16 +634,37 @@ pub struct ApiCase {
 
 fn api_body(case: &ApiCase, ctx: &mut CaseCtx) -> PropResult {
     let tag = CASE_COUNTER.fetch_add(1, Ordering::Relaxed);
-    let content = |c: usize| format!("c18-api-{tag}-{c}").into_bytes();
+    // contents 0..4 are short; 5..7 are > 64 KiB / > 128 KiB buffers that share a long prefix and
+    // differ only in their last bytes or in their length
+    let content = |c: usize| -> Vec<u8> {
+        let mut v = format!("c18-api-{tag}-").into_bytes();
+        match c {
+            5 | 6 | 7 => {
+                v.resize(140_000, b'x');
+                match c {
+                    5 => {}
+                    6 => *v.last_mut().unwrap() = b'y',
+                    _ => v.truncate(139_000),
+                }
+            }
+            _ => v.extend_from_slice(c.to_string().as_bytes()),
+        }
+        v
+    };
     let ballast: Vec<SharedString> = (0..case.ballast as usize).map(|i| SharedString::new(content(1000 + i))).collect();
     let mut live: Vec<(SharedString, usize)> = Vec::new();
     let pick = |sel: u8, len: usize| if len == 0 { None } else { Some(sel as usize % len) };
     let mut used_clone_from = false;
     let mut unwound = false;
+    let mut large = false;
     let res = crate::engine::catch(|| -> Result<(), Fail> {
         for op in &case.ops {
             match op {
-                ApiOp::New(c) => live.push((SharedString::new(content(*c as usize % 5)), *c as usize % 5)),
+                ApiOp::New(c) => {
+                    let k = if *c >= 230 { 5 + (*c as usize % 3) } else { *c as usize % 5 };
+                    large |= k >= 5;
+                    live.push((SharedString::new(content(k)), k))
+                }
                 ApiOp::Clone(h) => {
                     if let Some(i) = pick(*h, live.len()) {
                         let x = (live[i].0.clone(), live[i].1);
@@ -713,6 +740,7 @@ fn api_body(case: &ApiCase, ctx: &mut CaseCtx) -> PropResult {
     });
     ctx.label_if(used_clone_from, "clone_from_used");
     ctx.label_if(unwound, "handles_dropped_while_unwinding");
+    ctx.label_if(large, "large_contents_with_a_shared_prefix");
     ctx.label_if(case.ballast >= 1024, "more_than_1024_live_contents");
     ctx.nontrivial_if(used_clone_from || case.ballast >= 1024 || case.ops.len() >= 4);
     match res {
@@ -722,7 +750,7 @@ fn api_body(case: &ApiCase, ctx: &mut CaseCtx) -> PropResult {
     }
     drop(live);
     drop(ballast);
-    for c in 0..5 {
+    for c in 0..8 {
         ensure!(!rbx_types::verif_cache_has(&content(c)), "c18:api:entry-left-behind", "the intern table still holds content {c} after every handle was dropped");
     }
     for i in (0..case.ballast as usize).step_by(97) {
@@ -823,6 +851,7 @@ pub fn run(ctx: &Ctx) -> PropertyReport {
         let mut r = ctx.run_prop("api-sequences", cases, api_strategy, api_body);
         r.floor("clone_from_used", cases / 20);
         r.floor("handles_dropped_while_unwinding", cases / 20);
+        r.floor("large_contents_with_a_shared_prefix", cases / 20);
         r.floor("more_than_1024_live_contents", cases / 50);
         rep.push(r);
     }
